@@ -515,7 +515,7 @@ func sweepSigned(c *mon.Case, b *built) {
 	orig := semOf(p0, b.spec.digestOnly)
 	region := signedRegions(b.der)
 	alt := append([]byte{}, b.der...)
-	var nAlt, nParseFail, nVerifyFail, nPanic, nSame, nEncOnly, nAlgOnly, nWrap, nViol int
+	var nAlt, nParseFail, nVerifyFail, nPanic, nSame, nEncOnly, nAlgOnly, nWrap, nDropped, nViol int
 	tolerated := map[string]int{}
 	for pos := range alt {
 		ob := alt[pos]
@@ -554,6 +554,9 @@ func sweepSigned(c *mon.Case, b *built) {
 					if certWrap {
 						nWrap++
 					}
+					if len(p.Signers) < len(p0.Signers) {
+						nDropped++
+					}
 					if d, e := pkcs7.VerifBER2DER(alt); e == nil && bytes.Equal(d, b.der) {
 						nEncOnly++
 					}
@@ -570,6 +573,7 @@ func sweepSigned(c *mon.Case, b *built) {
 	c.Event("alt/verified_encoding_only(normalises_to_original)", nEncOnly)
 	c.Event("alt/verified_equivalent_algorithm_identifier", nAlgOnly)
 	c.Event("alt/verified_trusted_certificate_with_ignored_trailing_bytes", nWrap)
+	c.Event("alt/verified_with_a_signer_dropped", nDropped)
 	c.Event("alt/violations", nViol)
 	for r, n := range tolerated {
 		c.Event("alt/tolerated_in/"+r, n)
@@ -918,7 +922,7 @@ func lenClass(n int) string {
 func signedRoundTrip(x *mon.Ctx) {
 	w := setup(x)
 	lens := roundTripLens()
-	reps := x.Scale(2, 12)
+	reps := x.Scale(6, 40)
 	t := 0
 	for rep := 0; rep < reps; rep++ {
 		for _, n := range lens {
